@@ -12,7 +12,10 @@ SPEC = Spec(
          "0-3 receivers/exporters/processors per pipeline from 4 ids, 0-3 connectors with random support matrices, 60% built "
          "acyclic-by-construction, 40% unconstrained incl. self/one-sided/unsupported uses, duplicated list entries, a connector "
          "id that also names a receiver) run through the real graph.Build with instrumented components of all four signals; "
-         "one tagged payload injected at every receiver instance. thorough adds the exhaustive scope <=3 pipelines x 2 signals x "
+         "every pipelines.Config value is first validated with xconfmap.Validate (as otelcol does; dumped before/after: validation must be "
+         "read-only) and the very same value is then built; processor ids include k10/k11 and lists of up to 4 in random order so the "
+         "configured order differs from the lexical one; ~6% of the cases fail validation (no receiver / no exporter / duplicated "
+         "processor) and are not built; one tagged payload injected at every receiver instance. thorough adds the exhaustive scope <=3 pipelines x 2 signals x "
          "2 connectors (266304 configurations). non-trivial = uses a connector or shares a receiver/exporter between pipelines; "
          "distinct = distinct op sequences (sha1 of the op lines).",
     trusted_base=[
@@ -24,7 +27,7 @@ SPEC = Spec(
         "instrumented test connectors forward every payload to their whole router (all next pipelines); real connectors may route selectively",
     ],
     assumptions=[
-        "pipeline ids are distinct (Go map keys) and no pipeline lists a processor twice (PipelineConfig.Validate)",
+        "pipeline ids are distinct (Go map keys); no pipeline lists a processor twice - this is what the modelled PipelineConfig.Validate guarantees (C09_validate_wf), and the harness only builds configurations that passed the real validation",
         "every consumer hands a payload to each of its next consumers exactly once (fan-out semantics are property C06)",
     ],
 )
